@@ -2,12 +2,16 @@
 
 Generator: rule sets over a small alphabet (directory keys src, src/api, src/api/v1, tests, lib, .github; nine regex patterns;
 deny items as plain strings or {pattern, reason|message} dicts; global_deny; global_patterns.allow/deny; now and then one
-syntactically invalid pattern) x a tree drawn from 13 directories x 6 file names (with look-alike directories `srcx`, `github`,
-`src/apix`), delivered through .thailint.yaml, --config <json|yaml> or --rules, and linted as `.`, absolute path,
+syntactically invalid pattern) x a tree drawn from 13 directories x 8 file names (with look-alike directories `srcx`, `github`,
+`src/apix`; with letter-case twins: a.py / A.PY, Readme.md / README.MD against the patterns ending in .py$ / .PY$ and `(^|/)readme`), delivered through .thailint.yaml, --config <json|yaml> or --rules, and linted as `.`, absolute path,
 file list, sub-directory argument, from a sub-directory cwd or from a foreign cwd.
 Oracle: vf/oracle/c18_placement.py (the statement verbatim); observed = set of tree files with a file-placement
 violation; invalid pattern => exit code 2.
-Bounded exhaustive sub-spaces (see run()) are enumerated completely.
+Bounded exhaustive sub-spaces (see run()) are enumerated completely. One of them (EC) is the letter-case dimension: every list
+site (directory allow / deny, global_deny, global_patterns allow / deny) x list length 1-3, two sites side by side, over patterns
+and paths that agree exactly, in letter case only, or not at all - how a pattern treats letter case must not depend on the list
+it stands in or on the length of that list. A mismatch in which some lists judged case-sensitively and others case-insensitively
+gets its own signature (`case-handling-inconsistent|case-sensitive-at:<sites>`); it is never covered by the known deviation.
 Known deviations of the tool are modelled explicitly (DEVIATIONS): a mismatch is a KNOWN finding only if a listed
 deviation (set) explains the observed verdicts of *all* files of the case exactly.
 """
@@ -26,10 +30,11 @@ from vf.project import Project, to_yaml
 
 ID = "C18"
 TECHNIQUE = ("Hypothesis-generated rule sets x generated trees vs. a reference verdict function written from the statement; "
-             "bounded exhaustive enumeration of small rule sets against a fixed tree; four config carriers, six invocation forms")
+             "bounded exhaustive enumeration of small rule sets against a fixed tree (incl. a letter-case x list-site x list-length matrix); "
+             "four config carriers, six invocation forms")
 RULE = (
     "case = one rule set (0-3 directory rules with allow/deny lists, global_deny, global_patterns) + one tree of 6-20 "
-    "files (directories and names also starting with a dot: .github/, ..d/, .env) + carrier + invocation form; one thailint file-placement run, verdict compared per file. Non-trivial: per the "
+    "files (directories and names also starting with a dot: .github/, ..d/, .env; names and patterns that differ in letter case only: A.PY, README.MD) + carrier + invocation form; one thailint file-placement run, verdict compared per file. Non-trivial: per the "
     "reference at least one file is reported and one is not, and (two directory keys are nested, or some file matches "
     "both allow and deny of its deciding rule, or a global rule exists while some file is not covered by a directory "
     "rule). Distinct = hash of the normalised rule set (patterns per list, sorted)."
@@ -37,6 +42,8 @@ RULE = (
 ASSUMPTIONS = [
     "patterns are Python regular expressions searched (re.search) in the project-relative POSIX path with default (case-sensitive) "
     "regex semantics - docs/file-placement-linter.md documents `[A-Z].*\\.py$` as 'files starting with uppercase'",
+    "letter case is handled the same way by every list of a rule set: the tool's IGNORECASE matching is a modelled known deviation only when it "
+    "explains ALL files of a case; verdicts that are case-sensitive in one list and case-insensitive in another match neither reading and are reported",
     "directory keys are plain relative directory paths, now and then with a trailing slash (same directory); the undocumented key '/' is not generated",
     "only the generated tree's files are judged; verdicts for the config carrier files themselves are ignored",
     "--rules and --config carry the same document as .thailint.yaml ({'file-placement': {...}})",
@@ -46,10 +53,11 @@ ASSUMPTIONS = [
 BUDGET_S = {"quick": 100, "thorough": 1300}
 
 KEYS = ["src", "src/api", "src/api/v1", "tests", "lib", ".github"]
-PATTERNS = [r".*\.py$", r"^test_.*", r"test_.*\.py$", r".*\.(ts|tsx)$", r"^src/", r"[A-Z].*", r".*_api\.py$", r"^\.", r"^\.github/.*\.md$"]
+PATTERNS = [r".*\.py$", r"^test_.*", r"test_.*\.py$", r".*\.(ts|tsx)$", r"^src/", r"[A-Z].*", r".*_api\.py$", r"^\.", r"^\.github/.*\.md$",
+            r".*\.PY$", r"(^|/)readme\."]  # the last two meet paths that differ from them in letter case only (a.py / A.PY, Readme.md / README.MD)
 INVALID = ["(", "[a-", "*.py"]
 DIRS = ["", "src/", "src/api/", "src/api/v1/", "src/apix/", "srcx/", "tests/", "lib/x/", "other/", ".github/", ".github/wf/", "..d/", "github/"]
-NAMES = ["a.py", "test_a.py", "user_api.py", "B.tsx", "Readme.md", ".env"]
+NAMES = ["a.py", "test_a.py", "user_api.py", "B.tsx", "Readme.md", ".env", "A.PY", "README.MD"]  # A.PY / README.MD: letter-case twins
 ALL_FILES = [d + n for d in DIRS for n in NAMES]
 CARRIER_FILES = {".thailint.yaml", "fp-rules.json", "fp-rules.yaml"}
 
@@ -58,6 +66,10 @@ FIXED_TREE = ["a.py", "test_a.py", "B.tsx", "src/a.py", "src/test_a.py", "src/B.
               "src/apix/a.py", "srcx/test_a.py", "srcx/a.py", "tests/test_a.py", "tests/a.py", "lib/x/a.py", "lib/x/B.tsx", "other/test_a.py", "other/B.tsx"]
 EX_KEYS = ["src", "src/api", "tests", "lib"]
 EX_PATTERNS = [r".*\.py$", r"test_.*\.py$", r"^src/"]
+
+# letter-case tier EC: every directory class x names that meet the EC patterns exactly, in letter case only, or not at all
+EC_TREE = [d + n for d in ["", "src/", "lib/"] for n in ["a.py", "A.PY", "notes.md", "NOTES.MD", "Notes.txt", "data.json"]]
+EC_PATTERNS = [r".*\.py$", r".*\.MD$", r"(^|/)notes\."]
 
 DEVIATIONS = tuple(live_first("C18", ("dir-key-string-prefix", "global-rules-on-covered-files", "patterns-case-insensitive", "relative-path-as-given")))
 
@@ -232,6 +244,27 @@ def _allow_items_of(cfg):
         yield "gp-allow", i
 
 
+def _mixed_case_handling(cfg, universe, judged, observed, app):
+    """Classify a mismatch no deviation set explains: are the verdicts those of ONE rule set whose lists disagree about
+    letter case - every file judged either case-sensitively or case-insensitively (all else equal), and both kinds occur?
+    -> {"sensitive": [...], "insensitive": [...]} (files whose verdict only one of the two readings gives) or None"""
+    ci = "patterns-case-insensitive"
+    others = [d for d in app if d != ci]
+    for n in range(len(others) + 1):
+        for base in itertools.combinations(others, n):
+            sens = {f: model.verdict(cfg, f, base, judged.get(f)) for f in universe}
+            ins = {f: model.verdict(cfg, f, base + (ci,), judged.get(f)) for f in universe}
+            if not all(observed[f] in (sens[f][0], ins[f][0]) for f in universe):
+                continue
+            differ = [f for f in universe if sens[f][0] != ins[f][0]]
+            as_sens = [f for f in differ if observed[f] == sens[f][0]]
+            as_ins = [f for f in differ if observed[f] == ins[f][0]]
+            if as_sens and as_ins:
+                row = lambda f: {"file": f, "deciding_clause": (sens[f] if sens[f][0] else ins[f])[1], "reported": observed[f]}
+                return {"other_deviations": list(base), "sensitive": [row(f) for f in as_sens[:4]], "insensitive": [row(f) for f in as_ins[:4]]}
+    return None
+
+
 def check(case) -> Case:
     cfg, files = case["cfg"], case["files"]
     inv = case.get("invoke", {"mode": "dot"})
@@ -284,6 +317,9 @@ def check(case) -> Case:
         labels.append("allow/deny-overlap")
     if global_in_play:
         labels.append("global-in-play")
+    for f in universe:
+        if model.verdict(cfg, f, ("patterns-case-insensitive",))[0] != spec[f][0]:
+            labels.append("letter-case-decides:" + spec[f][1])
     wrong = [f for f in universe if observed[f] != spec[f][0]]
     if wrong:
         explained = None
@@ -298,8 +334,13 @@ def check(case) -> Case:
             for d in explained:
                 failures.append(Failure(f"dev:{d}", detail))
         else:
-            kind = "missing" if spec[f0][0] else "extra"
-            failures.append(Failure(f"{kind}|{spec[f0][1]}", detail))
+            mixed = _mixed_case_handling(cfg, universe, judged, observed, app)
+            if mixed:
+                detail["case_handling"] = mixed
+                failures.append(Failure("case-handling-inconsistent|case-sensitive-at:" + "+".join(sorted({m["deciding_clause"] for m in mixed["sensitive"]})), detail))
+            else:
+                kind = "missing" if spec[f0][0] else "extra"
+                failures.append(Failure(f"{kind}|{spec[f0][1]}", detail))
     return Case(key=key, nontrivial=nontrivial, labels=labels, failures=failures)
 
 
@@ -359,7 +400,33 @@ def _global_configs():
     return out
 
 
+def _case_space():
+    """letter case x list site x list length: every list site (directory allow / deny, global_deny, global_patterns allow /
+    deny) with lists of 1, 2 and 3 of the EC patterns, two sites side by side: (a) two directory rules, (b) one directory
+    rule or none + the global lists"""
+    p0, p1, p2 = EC_PATTERNS
+    allow = [None, [p0], [p1], [p0, p1], [p1, p2], [p0, p1, p2]]
+    deny = [None, [p0], [p2], [p0, p1]]
+    rules = [{**({"allow": a} if a is not None else {}), **({"deny": d} if d is not None else {})} for a in allow for d in deny]
+    out = [{"directories": {"src": r1, "lib": r2}} for r1 in rules for r2 in rules]
+    for d in [{}] + [{"directories": {"src": r}} for r in rules if r]:
+        for gd in [None, [p0], [p2], [p0, p1]]:
+            for ga in allow:
+                for gdn in deny[:3]:
+                    c = dict(d)
+                    if gd is not None:
+                        c["global_deny"] = gd
+                    gp = {**({"allow": ga} if ga is not None else {}), **({"deny": gdn} if gdn is not None else {})}
+                    if gp:
+                        c["global_patterns"] = gp
+                    if gd is not None or gp:
+                        out.append(c)
+    return out
+
+
 def exhaustive_space(name):
+    if name == "EC":
+        return _case_space()
     if name == "E0":  # <=1 directory key, <=1 pattern per list, x 27 global configurations
         return [{**d, **g} for d in _dir_configs(1, 1) for g in _global_configs()]
     if name == "E1":  # <=2 directory keys, <=2 patterns per list, no global rules
@@ -372,19 +439,26 @@ def exhaustive_space(name):
 EX_DESCR = {
     "E0": "all rule sets: <=1 directory key of {src, src/api, tests, lib}, allow/deny absent or 1 pattern of 3, x global_deny / global_patterns.allow / .deny each absent or 1 pattern of 2; fixed 17-file tree",
     "E1": "all rule sets: <=2 directory keys of {src, src/api, tests, lib}, allow/deny absent or 1-2 patterns of 3, no global rules; fixed 17-file tree",
+    "EC": "letter case x list site x list length: two directory rules (src, lib), each allow absent or one of 5 lists of 1-3 patterns, deny absent or one of 3 lists of 1-2 patterns; and <=1 directory rule x global_deny x global_patterns.allow x .deny over the same lists; the 3 patterns and the fixed 18-file tree (root, src/, lib/ x a.py A.PY notes.md NOTES.MD Notes.txt data.json) agree exactly, in letter case only, or not at all",
     "E2": "all rule sets: <=2 directory keys of 4, allow/deny absent or 1 pattern of 3, x 27 global configurations; fixed 17-file tree",
 }
 
 
 def run(ctx):
-    ctx.explore(cases(), check, max_examples=ctx.n(350, 1500))
-    for name in (["E0"] if ctx.quick else ["E0", "E1", "E2"]):
+    def matrix(name):
         space = exhaustive_space(name)
         mine = ctx.my_cells(space)
-        cells = [{"cfg": c, "files": FIXED_TREE, "carrier": "yaml", "invoke": {"mode": "dot"}} for c in mine]
+        cells = [{"cfg": c, "files": EC_TREE if name == "EC" else FIXED_TREE, "carrier": "yaml", "invoke": {"mode": "dot"}} for c in mine]
         done = ctx.each(cells, check)
         ctx.stats.extra.setdefault("matrix", {})[f"{name}: {EX_DESCR[name]}"] = {"cells": len(mine), "done": done}
-    ctx.stats.extra["exhaustive_subspaces"] = "bounded rule-set spaces " + ("E0" if ctx.quick else "E0, E1, E2") + " (see matrix) against one fixed tree; everything else is sampled"
+
+    # the two small finite matrices first: on an overloaded machine the budget then cuts sampled examples, not enumerated cells
+    for name in ("E0", "EC"):
+        matrix(name)
+    ctx.explore(cases(), check, max_examples=ctx.n(350, 1500))
+    for name in ([] if ctx.quick else ["E1", "E2"]):
+        matrix(name)
+    ctx.stats.extra["exhaustive_subspaces"] = "bounded rule-set spaces " + ("E0, EC" if ctx.quick else "E0, EC, E1, E2") + " (see matrix) against one fixed tree; everything else is sampled"
 
 
 def replay(case) -> Case:
